@@ -190,3 +190,412 @@ PROPS["C07"] = {
     "assumptions": ["the model's mask_value is what the crate computes (checked by the exhaustive sweep of this run)"],
     "trusted_base": [],
 }
+
+
+# ------------------------------------------------------------------ generic run families
+
+def run_family(prefix, n_quick, n_thorough, profiles):
+    """cases from gen.gen_run_case, cycling through the given profiles"""
+    def f(seed, tier):
+        n = n_quick if tier == "quick" else n_thorough
+        out = []
+        for i in range(n):
+            p = profiles[i % len(profiles)]
+            out.append(gen.gen_run_case("%s-%d-%d" % (prefix, seed, i), (seed * 1000003 + i * 7919 + hash(prefix) % 1000) & 0x7FFFFFFF, p))
+        return out
+    return f
+
+
+def add_faults(casefn, kinds, frac=0.6):
+    """wrap a family: a fraction of the cases gets one driver fault at a random call index"""
+    def f(seed, tier):
+        cases = casefn(seed, tier)
+        rng = random.Random(seed ^ 0xFA17)
+        for c in cases:
+            if rng.random() < frac:
+                nsig = len(c["sigs"]) + 3
+                c["faults"] = gen.gen_faults(rng, c, nsig, rng.choice([1, 2, 3, 5, 8, 12]), kinds)
+        return cases
+    return f
+
+
+def signal_order_oracle(case, trace):
+    """C06: every row's inputs are the input-capable signals in signal-list order, and every
+    checked row's outputs are the output-capable and virtual signals in signal-list order"""
+    sigline = [r for t, r in trace if t == "SIGNALS"]
+    if not sigline:
+        return
+    sigs = []
+    for w in sigline[0].split():
+        f = w.split(":")
+        sigs.append((f[0], f[1]))
+    want_in = [n for n, k in sigs if k in ("I", "B")]
+    want_out = [n for n, k in sigs if k in ("O", "B", "V")]
+    calls = calls_of(trace)
+    for line, ins, outs, _ in rows_of(trace):
+        if [n for n, _, _ in ins] != want_in:
+            yield "row at line %s: inputs %s are not the input-capable signals in signal-list order %s" % (line, [n for n, _, _ in ins], want_in)
+            return
+        if outs and [o[0] for o in outs] != want_out:
+            yield "row at line %s: outputs %s are not the output-capable/virtual signals in order %s" % (line, [o[0] for o in outs], want_out)
+            return
+
+
+def protocol_oracle(case, trace):
+    """C02: constructor call first; then exactly one call per row, carrying the row's inputs verbatim;
+    W (or forwarded RW) for rows without outputs; nothing after the end"""
+    seq = [(t, r) for t, r in trace if t in ("CALL", "NEW", "ROW", "ITEM", "END")]
+    if not any(t == "NEW" for t, _ in seq):
+        return
+    i = 0
+    if not seq or seq[0][0] != "CALL" or not seq[0][1].startswith("RW"):
+        yield "the first driver call is not the constructor's output-reading call"
+        return
+    if any(("*" in w) for w in seq[0][1].split()[1:]):
+        yield "constructor vector flags an input as changed: %s" % seq[0][1]
+    if seq[1][0] != "NEW":
+        yield "more than one driver call during construction"
+        return
+    i = 2
+    pending = None
+    wdefault = case.get("wdefault", 0)
+    while i < len(seq):
+        t, r = seq[i]
+        if t == "CALL":
+            if pending is not None:
+                yield "two driver calls without a row in between: %s / %s" % (pending, r)
+                return
+            pending = r
+        elif t == "ROW":
+            parts = r.split(" | ")
+            if pending is None:
+                yield "row at line %s was yielded without a driver call" % parts[0]
+                return
+            kind, _, vec = pending.partition(" ")
+            if vec.strip() != parts[1].strip():
+                yield "driver received '%s' but the row reports inputs '%s'" % (vec.strip(), parts[1].strip())
+                return
+            pending = None
+        elif t == "ITEM":
+            if r.startswith("err driver") and pending is None:
+                yield "driver error item without a driver call"
+            pending = None
+        elif t == "END":
+            if pending is not None and not r.startswith("limit"):
+                yield "a driver call was made that belongs to no item: %s" % pending
+        i += 1
+
+
+def rng_oracle(case, trace):
+    """C17: every draw for bound n lies in [0, n); after a reset the (bound, draw) pairs replay
+    those from the start of the run for as long as the bounds agree"""
+    ev = []
+    for t, r in trace:
+        if t == "RNG":
+            ev += r.split()
+    first = []      # (bound, draw) pairs since the start of the run
+    cur = None
+    seg = first
+    i = 0
+    pairs = []
+    segs = [[]]
+    while i < len(ev):
+        e = ev[i]
+        if e == "R":
+            segs.append([])
+        elif e.startswith("b"):
+            n = int(e[1:])
+            if i + 1 < len(ev) and ev[i + 1].startswith("d"):
+                d = int(ev[i + 1][1:])
+                if not (0 <= d < n):
+                    yield "random(%d) drew %d, outside [0, %d)" % (n, d, n)
+                segs[-1].append((n, d))
+                i += 1
+            else:
+                yield "random(%d) evaluated without exactly one draw" % n
+        elif e.startswith("d"):
+            yield "a draw without a random() evaluation"
+        i += 1
+    base = segs[0]
+    for s in segs[1:]:
+        for (a, b) in zip(base, s):
+            if a[0] != b[0]:
+                break
+            if a[1] != b[1]:
+                yield "after resetRandom, random(%d) drew %d but the run's earlier draw at this position was %d" % (a[0], b[1], a[1])
+                return
+        # a later segment that is longer than the base extends what we know of the seed's stream
+        if len(s) > len(base) and all(x[0] == y[0] for x, y in zip(base, s)):
+            base = s
+
+
+SMALL16 = {"small": True}
+
+PROPS["C01"] = {
+    "cases": run_family("c01", 500, 20000, [
+        {"maxdepth": 4, "budget": 16, "wrow": 0.35, "wlet": 0.25, "pC": 0.0, "pX": 0.0, "pbits": 0.12, "reads": 0.3, "shadow_out": 0.2},
+        {"maxdepth": 3, "budget": 12, "wrow": 0.4, "wlet": 0.2, "pC": 0.03, "pX": 0.03, "pbits": 0.08, "reads": 0.5, "echo": 1.0, "fancy": True},
+        {"maxdepth": 5, "budget": 20, "wrow": 0.3, "wlet": 0.3, "pC": 0.0, "pX": 0.0, "reads": 0.0},
+    ]),
+    "tags": RUN_TAGS + ("VARS",),
+    "nontrivial": nontrivial_rows(2),
+    "oracles": [no_panic_oracle],
+    "rule": "seeded valid programs: nesting depth up to 5 of let / loop / repeat / while / resetRandom around data rows; bounds constant, negative, zero, "
+            "variable, expression, device-read; lets inside loops and whiles, shadowing of outer variables and of output names; rows with literals, "
+            "expressions, bits(); non-trivial = at least 2 rows or an error item; distinct = hash of the projected trace (calls, rows, vars, items)",
+    "proved": "Stmt.next (the 7-state resumable iterator) driven to the end = the sequential reading StmtSpec.exec, in both directions, for every program, "
+              "context, evaluator and row handler (hence every prefix of every run); zero/negative bound skips the loop; scoping via the stack-of-frames "
+              "abstraction of FramedMap; bits() MSB first",
+    "validated_only": "that src/stmt.rs, src/framed_map.rs, src/eval_context.rs behave as Stmt.v / FramedMap.v / Eval.v (differential runs); repeat(n) = loop(n, ..) in the parser",
+    "assumptions": ["Stmt.v / FramedMap.v / Eval.v model src/stmt.rs, src/framed_map.rs, src/eval_context.rs (checked by the correspondence runs of this check)"],
+    "trusted_base": [],
+}
+
+PROPS["C18"] = dict(PROPS["C01"])
+PROPS["C18"].update({
+    "cases": run_family("c18", 400, 20000, [
+        {"maxdepth": 4, "budget": 16, "wrow": 0.4, "wlet": 0.3, "pC": 0.1, "pX": 0.1, "reads": 0.3, "shadow_out": 0.3, "declare": 0.3},
+        {"maxdepth": 5, "budget": 18, "wrow": 0.35, "wlet": 0.3, "pC": 0.0, "pX": 0.0, "reads": 0.0},
+    ]),
+    "tags": ("PARSE", "BIND", "NEW", "ROW", "VARS", "ITEM", "END"),
+    "rule": "seeded valid programs with lets at every depth, shadowing (also of output names), C/X expansions and virtual signals; vars() is read after EVERY "
+            "yielded row (mid-clock and X-expanded rows included) and compared, sorted by key, with the model's flatten; non-trivial = at least 2 rows",
+    "proved": "vars() (FramedMap::flatten) = innermost-wins view of the stack of frames = what a variable read returns; frames of ended loops are gone and "
+              "shadowed bindings reappear; outputs never enter it; the IO of next() (incl. swap_vars for virtual signals) leaves the variable map as row evaluation left it",
+    "validated_only": "that the real HashMap returned by vars() equals the model's association list (compared sorted, every row)",
+})
+
+PROPS["C02"] = {
+    "cases": add_faults(run_family("c02", 500, 20000, [
+        {"pC": 0.3, "pX": 0.1, "maxdepth": 2, "reads": 0.3, "declare": 0.2},
+        {"pC": 0.15, "pX": 0.15, "maxdepth": 3, "reads": 0.5, "echo": 1.0},
+    ]), ["err"], 0.35),
+    "tags": ("NEW", "CALL", "ROW", "ITEM", "END"),
+    "nontrivial": nontrivial_rows(2),
+    "oracles": [protocol_oracle, no_panic_oracle],
+    "rule": "seeded programs with many C rows (write-only mid-clock calls) and X rows, drivers that override write_input and drivers that inherit the default, "
+            "a third of the cases with a driver error at a random call index; the harness driver records (method, full input vector) of every call; "
+            "non-trivial = at least 2 rows or an error item",
+    "proved": "constructor = exactly one RW call with the default vector; every next(): None -> no call, row -> exactly one call carrying the row's inputs verbatim "
+              "(RW if checked, write-only or its default forwarding otherwise, then outputs empty), driver error -> exactly the failing call, evaluation error -> no call; "
+              "n-step accounting of the ghost log; nothing after None. For every driver, generator, test case.",
+    "validated_only": "that src/data_row_iterator.rs / src/lib.rs (default write_input) behave as Iter.v (differential runs + intrinsic call/row matching)",
+    "assumptions": ["Iter.v models src/data_row_iterator.rs (checked by the correspondence runs of this check)"],
+    "trusted_base": [],
+}
+
+PROPS["C04"] = {
+    "cases": run_family("c04", 500, 20000, [
+        {"reads": 0.9, "echo": 1.0, "pC": 0.2, "maxdepth": 3, "shadow_out": 0.3, "pZXread": 0.08, "drop_read": 0.1},
+        {"reads": 0.7, "echo": 1.0, "pC": 0.1, "pX": 0.1, "maxdepth": 3, "declare": 0.2, "wlet": 0.3},
+    ]),
+    "tags": RUN_TAGS,
+    "nontrivial": nontrivial_rows(2),
+    "oracles": [no_panic_oracle],
+    "rule": "seeded programs reading outputs in row entries, lets, loop bounds and while conditions; drivers whose answers depend on call index AND on the inputs received (echo), "
+            "C rows interleaved so that a refresh on a write-only call would show; variables shadowing output names; Z/X returned for read outputs; layouts that omit a read output; "
+            "non-trivial = at least 2 rows or an error",
+    "proved": "ctx outputs = answer of the constructor call initially; replaced exactly by the answer of each checked row's call; untouched by mid-clock writes, by the statement "
+              "iterator and by row preparation; variables take precedence in ctx_get; reading Z/X is an evaluation error",
+    "validated_only": "that the crate's EvalContext / DataRowIterator behave as the model (differential runs with feedback drivers)",
+    "assumptions": ["Iter.v / Eval.v model the crate (checked by the correspondence runs of this check)"],
+    "trusted_base": [],
+}
+
+PROPS["C05"] = {
+    "cases": run_family("c05", 500, 20000, [
+        {"pC": 0.3, "pX": 0.3, "pZ": 0.05, "pXout": 0.3, "pZout": 0.1, "maxdepth": 1, "reads": 0.0, "n_bidir": 1, "pbits": 0.1},
+        {"pC": 0.2, "pX": 0.25, "maxdepth": 3, "reads": 0.2, "pbits": 0.1},
+    ]),
+    "tags": ("NEW", "CALL", "ROW", "ITEM", "END"),
+    "nontrivial": nontrivial_rows(3),
+    "oracles": [no_panic_oracle],
+    "rule": "seeded rows with 0-4 clock columns and 0-5 X entries on 1-bit, multi-bit and bidirectional inputs, X/Z in expected columns, mixed with literals, expressions and bits(), "
+            "at loop depth 0-3; projection = call kinds and vectors, rows (inputs, expected, line); non-trivial = at least 3 rows",
+    "proved": "prepare_cache+pop iterated until the cache is empty = ExpandSpec.expand_spec (2^k assignments, leftmost fastest, 0 before 1; clock triple 0,1,0 with only the last checked; "
+              "expected columns blanked in the unchecked rows) for every row and every index vectors, with explicit fuel bound; row count formula; non-input columns never expanded",
+    "validated_only": "that expand_x / expand_c / get_row of src/data_row_iterator.rs behave as Iter.v",
+    "assumptions": ["Iter.v models src/data_row_iterator.rs (checked by the correspondence runs of this check)"],
+    "trusted_base": [],
+}
+
+PROPS["C06"] = {
+    "cases": run_family("c06", 500, 20000, [
+        {"n_bidir": 1, "pC": 0.05, "pX": 0.05, "maxdepth": 1, "reads": 0.0, "pZ": 0.1, "wide": True},
+        {"n_bidir": 2, "pC": 0.1, "pX": 0.1, "maxdepth": 2, "reads": 0.2, "declare": 0.3, "odd_names": True},
+    ]),
+    "tags": ("BIND", "SIGNALS", "NEW", "CALL", "ROW", "ITEM", "END"),
+    "nontrivial": nontrivial_rows(2),
+    "oracles": [signal_order_oracle, no_panic_oracle],
+    "rule": "seeded signal lists (inputs, outputs, bidirectional interleaved, widths 1..64, defaults incl. Z) against headers that are shuffled strict subsets of the possible columns "
+            "(bidirectional pairs split or partial); projection = signal identity, order, value, changed flag of every entry and the vectors received by the driver; non-trivial = at least 2 rows",
+    "proved": "for every parsed test, signal list and row: generate_input_entries / generate_expected_entries / default vector = the by-name specification (ByNameSpec) built from the header names only; "
+              "one entry per input-capable (resp. output-capable or virtual) signal in signal-list order; changed=false implies same value as in the previous vector; omitted inputs at default, never changed",
+    "validated_only": "that build_indices / generate_*_entries / check_changed_entries of the crate behave as Bind.v / Iter.v",
+    "assumptions": ["Bind.v / Iter.v model the crate (checked by the correspondence runs of this check)"],
+    "trusted_base": [],
+}
+
+
+# ------------------------------------------------------------------ C08: expressions
+
+def py_eval(e, env):
+    """the property's semantics on Python integers; returns int, or raises ZeroDivisionError / KeyError"""
+    k = e[0]
+    if k == "num":
+        return e[1]
+    if k == "var":
+        return env[e[1]]
+    if k == "un":
+        v = py_eval(e[2], env)
+        if e[1] == "-":
+            return to_i64(-v)
+        if e[1] == "!":
+            return 1 if v == 0 else 0
+        return to_i64(~v)
+    if k == "fn":
+        if e[1] == "ite":
+            t = py_eval(e[2][0], env)
+            return py_eval(e[2][1], env) if t != 0 else py_eval(e[2][2], env)
+        raise KeyError(e[1])
+    op, l, r = e[1], py_eval(e[2], env), py_eval(e[3], env)
+    if op == "+":
+        return to_i64(l + r)
+    if op == "-":
+        return to_i64(l - r)
+    if op == "*":
+        return to_i64(l * r)
+    if op in ("/", "%"):
+        if r == 0:
+            raise ZeroDivisionError
+        q = abs(l) // abs(r)
+        if (l < 0) != (r < 0):
+            q = -q
+        return to_i64(q) if op == "/" else to_i64(l - q * r)
+    if op == "<<":
+        return to_i64(l << (r % 64))
+    if op == ">>":
+        return l >> (r % 64)
+    if op == "&":
+        return l & r
+    if op == "|":
+        return l | r
+    if op == "^":
+        return l ^ r
+    return {"=": l == r, "!=": l != r, "<": l < r, ">": l > r, "<=": l <= r, ">=": l >= r}[op] and 1 or 0
+
+
+def c08_cases(seed, tier):
+    rng = random.Random(seed ^ 0xC08)
+    cases = []
+    sigs = [{"name": "A", "typ": "I", "bits": 1, "default": "0"}, {"name": "Q", "typ": "O", "bits": 8, "default": "-"}]
+    vals = gen.B64
+    # (1) exhaustive operator x boundary x boundary table, through variables so that negative operands exist
+    ops = gen.BINOPS
+    rows = []
+    for op in ops:
+        for a in vals:
+            for b in vals:
+                if op in ("<<", ">>") and rng.random() < 0.5:
+                    b = rng.choice([-1, 0, 1, 63, 64, 65, 127, MIN64, 2 ** 63 - 1])
+                rows.append((op, a, b))
+    if tier == "quick":
+        rows = rows[::7] + [r for r in rows if r[0] in ("/", "%", "<<", ">>") and (r[1] == MIN64 or r[2] in (-1, 0, 64))]
+    chunk = 150
+    for ci in range(0, len(rows), chunk):
+        part = rows[ci:ci + chunk]
+        lines = ["A V", "declare V = Q;"]
+        exp = []
+        for op, a, b in part:
+            lines.append("let a = %s;" % lit64(a).strip("()") if a >= 0 else "let a = %s;" % lit64(a)[1:-1])
+            lines.append("let b = %s;" % (str(b) if b >= 0 else lit64(b)[1:-1]))
+            lines.append("0 (a %s b)" % op)
+            try:
+                exp.append(py_eval(("bin", op, ("num", a), ("num", b)), {}))
+            except ZeroDivisionError:
+                exp.append("err")
+                # a division by zero ends the run with an error item: keep it last in its own case
+                break
+        cases.append({"id": "c08-tab-%d" % ci, "kind": "run", "src": "\n".join(lines) + "\n", "sigs": sigs, "layout": [1], "table": [["1"]],
+                      "echo": 0, "wdefault": 0, "faults": [], "max": 100000, "seed": 1, "c08": exp})
+    # (2) random trees, minimal and redundant parentheses, unary operators, ite, radix mix
+    n = 300 if tier == "quick" else 20000
+    for i in range(n):
+        r = random.Random((seed << 20) ^ i)
+        env = {"x": r.choice(vals), "y": r.choice(vals), "z": r.randrange(-8, 70)}
+        eg = gen.ExprGen(r, vars_=["x", "y", "z"], small=(i % 3 == 0), shift_small=False, allow_random=False)
+        e = eg.gen(r.randrange(2, 7))
+        text = gen.print_expr(e, r, redundant=(0.0 if i % 2 == 0 else 0.3), radix_mix=(i % 4 == 1))
+        lines = ["A V", "declare V = Q;"]
+        for k_, v_ in env.items():
+            lines.append("let %s = %s;" % (k_, str(v_) if v_ >= 0 else lit64(v_)[1:-1]))
+        lines.append("0 (%s)" % text)
+        try:
+            exp = [py_eval(e, env)]
+        except ZeroDivisionError:
+            exp = ["err"]
+        cases.append({"id": "c08-tree-%d" % i, "kind": "run", "src": "\n".join(lines) + "\n", "sigs": sigs, "layout": [1], "table": [["1"]],
+                      "echo": 0, "wdefault": 0, "faults": [], "max": 10, "seed": 1, "c08": exp})
+    return cases
+
+
+def c08_oracle(case, trace):
+    exp = case.get("c08")
+    if exp is None:
+        return
+    rows = rows_of(trace)
+    items = [r for t, r in trace if t == "ITEM"]
+    k = 0
+    for want in exp:
+        if want == "err":
+            if not any("DivisionByZero" in it or "ivision" in it for it in items):
+                yield "division by zero did not give an error item (items: %s)" % items[:1]
+            return
+        if k >= len(rows):
+            yield "row %d missing (expected value %d)" % (k, want)
+            return
+        got = [o[2] for o in rows[k][2] if o[0] == "V"]
+        if got != [str(want)]:
+            src_line = [l for l in case["src"].split("\n") if l.startswith("0 (")][k]
+            yield "expression %s evaluates to %s, expected %d (64-bit two's complement semantics)" % (src_line[2:], got, want)
+            return
+        k += 1
+
+
+PROPS["C08"] = {
+    "cases": c08_cases,
+    "tags": ("PARSE", "BIND", "NEW", "ROW", "ITEM", "END"),
+    "nontrivial": lambda c, t: any(x == "ROW" for x, _ in t) or any(x == "ITEM" for x, _ in t),
+    "oracles": [c08_oracle, no_panic_oracle],
+    "release": True,
+    "rule": "(1) operator table: all 16 binary operators x 27 boundary values x 27 boundary values (shift counts also -1,0,1,63,64,65,127,MIN,MAX) through variables, observed un-truncated "
+            "in a 64-bit virtual-signal column (quick: every 7th plus all division/shift edge rows; thorough: all); (2) seeded random expression trees of depth 2-6 over all binary and unary operators, "
+            "ite, variables with boundary values, printed with minimal or redundant parentheses and mixed literal radix; oracle = independent big-integer evaluator; non-trivial = yields a row or an error item",
+    "proved": "BinOpTree::add fold = THE precedence-correct left-associative tree (existence + uniqueness), precedence table = the specified levels, left associativity within a level; every operator's "
+              "result characterised (wrap mod 2^64, shifts by count mod 64 with arithmetic >>, quot/rem, 0/1 comparisons) and in i64; ite lazy; literal spelling in radix 10/16/2/8 lexes to one token of the "
+              "right kind whose value is the positional value, overflow beyond 2^63-1 is an error",
+    "validated_only": "that BinOp::eval / UnaryOp::eval / parse_expr / parse_number of the crate compute what Eval.v / Parser.v say (exhaustive operator table + random trees against an independent oracle); "
+                      "the unparse-parse round trip on token level is sampled, not proved",
+    "assumptions": ["Eval.v / Parser.v model the crate (checked by this run)"],
+    "trusted_base": [],
+}
+
+PROPS["C17"] = {
+    "cases": run_family("c17", 500, 20000, [
+        {"random": 0.6, "maxdepth": 3, "pC": 0.05, "pX": 0.05, "reads": 0.2, "declare": 0.0, "small": True},
+        {"random": 0.8, "maxdepth": 2, "wlet": 0.35, "reads": 0.0},
+    ]),
+    "tags": RUN_TAGS,
+    "nontrivial": lambda c, t: any(x == "RNG" and r.strip() for x, r in t),
+    "oracles": [rng_oracle, no_panic_oracle],
+    "rule": "seeded programs with random(n) in row entries, lets, loop bounds, while conditions and ite branches, n in {2,3,10,100,2^31,2^62}, resetRandom at statement level; seeds from the case PRNG "
+            "(hook: seed override); the implementation's generator events (bound, draw, reset) are logged through the verif-hooks feature, checked for range / one draw per evaluation / replay after reset, "
+            "and replayed into the model as its oracle G; non-trivial = at least one draw",
+    "proved": "random(e): bound < 2 -> error and no draw, else exactly one draw from [1,n) recorded in the history; with rand's range contract 0 <= r < n; evaluation only appends to the history; "
+              "no draw without a random node; unselected ite branch draws nothing; resetRandom restores the initial generator state",
+    "validated_only": "StdRng/gen_range (rand's contract is a hypothesis); that a program behaves 'as if the drawn values were literals' is exercised by replaying the implementation's draws into the model "
+                      "and comparing all rows, not proved as a program transformation",
+    "assumptions": ["rand: lo <= gen_range(lo..hi) < hi (hypothesis gen_in_range of the theorem, checked on every logged draw)", "StdRng::seed_from_u64 is deterministic (checked: replay after reset)"],
+    "trusted_base": ["rand 0.8 StdRng / gen_range (not modelled; oracle G)"],
+    "level": "proof",
+}
